@@ -64,6 +64,17 @@ def oracle(pid, case, o, consts):
                     fails.append(('write-outside', 'byte changed outside the declared destination: block %d offset %d (allowed %s)' % (bi, k, ok))); return fails
         return fails
     if pid == 'C02': return fails
+    if pid == 'C05':
+        # a failing call reports exactly once, with the code it returns, through the handler of its family; a succeeding call never reports
+        fl = failed(case, o)
+        if fl is None or g['fail'] in ('none', 'null'): return fails
+        hs = [(k, int(cd)) for (k, cd) in o.handlers]
+        if fl[0]:
+            if len(hs) != 1: fails.append(('handler-count', 'failed with %s but the handler was invoked %d times %s' % (fl[1], len(hs), hs)))
+            elif hs[0][1] != fl[1]: fails.append(('handler-code', 'failed with %s but the handler received %d' % (fl[1], hs[0][1])))
+            elif hs[0][0] != ('M' if g.get('mem') else 'S'): fails.append(('handler-kind', 'a %s function reported through the %s handler' % ('memory' if g.get('mem') else 'string', hs[0][0])))
+        elif hs: fails.append(('handler-on-success', 'succeeded but the handler was invoked: %s' % hs))
+        return fails
     if not usable(case, consts): return fails
     da = dest_after(case, o); db = dest_before(case); fl = failed(case, o)
     if pid == 'C03':
